@@ -1482,6 +1482,18 @@ def _checked(solver, timeout_ms, *assumptions):
         timer.cancel()
 
 
+def _raised_in_repo(exc):
+    import os as _os
+    repo = _os.path.realpath(_os.environ.get('SEDFITTER_REPO', '/repo'))
+    tb = exc.__traceback__
+    while tb is not None:
+        fn = tb.tb_frame.f_code.co_filename
+        if _os.path.realpath(fn).startswith(repo + _os.sep):
+            return True
+        tb = tb.tb_next
+    return False
+
+
 class Explorer:
     def __init__(self, feas_timeout_ms=2000, query_timeout_ms=60000, max_paths=200000, max_depth=4000,
                  **opts):
@@ -1587,6 +1599,10 @@ class Explorer:
                 except (Inconclusive, Refuted):
                     raise
                 except Exception as e:  # noqa: BLE001 - exceptions of the code under test are outcomes
+                    if not _raised_in_repo(e):
+                        # an exception that never passed through a frame of the code under test is a harness / shim error
+                        import traceback as _tb
+                        raise Inconclusive("harness error %s: %s\n%s" % (type(e).__name__, e, ''.join(_tb.format_tb(e.__traceback__)[-3:])))
                     out = ('exc', e)
                 self.stats.paths += 1
                 if self.stats.paths > self.max_paths:
